@@ -293,6 +293,10 @@ func verifHelperServer(fault string, log *verifHelperLog) int {
 		_ = internal.WriteDelimitedMessage(os.Stdout, &resp)
 		<-sigs
 		log.emit(map[string]any{"e": "Stop", "pid": pid, "addr": addr})
+		if parts[0] == "slowstop" && pid%2 == 0 {
+			// every other server takes its time to come down (well within the grace period)
+			time.Sleep(time.Duration(arg(1, 1500)) * time.Millisecond)
+		}
 		cancel()
 	}()
 	err := referenceserver.Run(ctx, []string{"referenceserver", "-bind", "127.0.0.1"}, inR, outW, os.Stderr)
